@@ -340,6 +340,11 @@ impl<'a> Tr<'a> {
                 return Ok((sc.to_string(), RTy::Scheme));
             }
         }
+        if segs.len() == 2 && segs[0] == "Bls12381" {
+            if let Some(c) = crate::wrappers::curve_ctor(last) {
+                return Ok((c.to_string(), RTy::Curve));
+            }
+        }
         if s == "u8::MAX" {
             return Ok(("255%N".into(), RTy::U8));
         }
@@ -505,6 +510,15 @@ impl<'a> Tr<'a> {
                     return Ok((v, RTy::W(owner)));
                 }
             }
+            if segs.len() == 2 && matches!(crate::wrappers::wrapper(&owner), Some(crate::wrappers::WKind::CurveTagged)) {
+                if let Some(c) = crate::wrappers::curve_ctor(&segs[1]) {
+                    let (v, _) = self.expr(args[0])?;
+                    return Ok((format!("({}, {})", c, v), RTy::W(owner)));
+                }
+                if segs[1] == "default" {
+                    return Ok(("(CurveG1, f0 K)".into(), RTy::W(owner)));
+                }
+            }
             if segs.len() == 2 {
                 if let Some((ctor, _)) = self.variant_ctor(&p.path) {
                     let (v, _) = self.expr(args[0])?;
@@ -546,7 +560,7 @@ impl<'a> Tr<'a> {
             }
         }
         // `<C as HashToScalar>::hash_to_scalar`, `<C as Pairing>::Signature::identity()` in the wrappers
-        if s == "<CasHashToScalar>::hash_to_scalar" {
+        if s == "<CasHashToScalar>::hash_to_scalar" || s == "<TasHashToScalar>::hash_to_scalar" {
             let a = self.expr(args[0])?.0;
             let b = self.expr(args[1])?.0;
             let tmp = self.tmp("x");
@@ -569,6 +583,42 @@ impl<'a> Tr<'a> {
         }
         if s == "Option::from" {
             return self.expr(args[0]);
+        }
+        if s == "Bls12381::try_from" {
+            let v = self.expr(args[0])?.0;
+            return Ok((format!("rs_ok_or (curve_of_u8 {}) DeserializationError", paren(&v)), RTy::Res(Box::new(RTy::Curve))));
+        }
+        if s == "u8::from" {
+            let (v, t) = self.expr(args[0])?;
+            if t == RTy::Curve || t == RTy::Unknown {
+                // (an argument of another type does not type-check against u8_of_curve)
+                return Ok((format!("u8_of_curve {}", paren(&v)), RTy::U8));
+            }
+            return Err("u8::from of a non-curve value".into());
+        }
+        if s == "Vec::from" {
+            // Vec::from(&wrapper) is the wrapper's byte form; Vec::from(array) is the array
+            let (v, t) = self.expr(args[0])?;
+            if let RTy::W(tn) = &t {
+                if let Some(&i) = self.table.by_key.get(&format!("{}::to_vec_bytes", tn)) {
+                    let callee = &self.table.fns[i];
+                    let tmp = self.tmp("r");
+                    self.pre.push(Bind::M(tmp.clone(), format!("{} E {}", callee.coq_name(), paren(&v))));
+                    return Ok((tmp, RTy::Bytes));
+                }
+                return Err(format!("Vec::from of {}", tn));
+            }
+            return Ok((v, RTy::Bytes));
+        }
+        // SecretKey::<Bls12381G1Impl>::try_from(bytes): the byte conversion of the wrapper
+        if segs.len() == 2 && segs[1] == "try_from" && crate::wrappers::wrapper(&segs[0]).is_some() && segs[0] != self.f.container {
+            if let Some(&i) = self.table.by_key.get(&format!("{}::try_from_bytes", segs[0])) {
+                let callee = &self.table.fns[i];
+                let v = self.expr(args[0])?.0;
+                let tmp = self.tmp("r");
+                self.pre.push(Bind::M(tmp.clone(), format!("{} E {}", callee.coq_name(), paren(&v))));
+                return Ok((tmp, callee.ret()));
+            }
         }
         if s == "serde_bare::to_vec" {
             let (v, t) = self.expr(args[0])?;
@@ -842,6 +892,13 @@ impl<'a> Tr<'a> {
             let r = self.rng_arg(&m.receiver)?;
             return Ok((format!("rng_gen32 {} {}", self.o(), r), RTy::Bytes));
         }
+        if name == "insert" && lit_int(args[0]) == Some(0) {
+            // Vec::insert(0, x)
+            let sv = base_var(&m.receiver).ok_or("insert on a non-variable")?;
+            let v = self.expr(args[1])?.0;
+            self.pre.push(Bind::Let(vname(&sv), format!("{} :: {}", v, vname(&sv))));
+            return Ok(("tt".into(), RTy::Unit));
+        }
         if name == "insert" {
             let sv = base_var(&m.receiver).ok_or("insert on a non-variable")?;
             let k = self.expr(args[0])?.0;
@@ -1007,6 +1064,10 @@ impl<'a> Tr<'a> {
             "to_repr" => (format!("repr {} {}", self.o(), rp), RTy::Bytes),
             "to_le_bytes" if rt == RTy::U64 => (format!("le64 {}", rp), RTy::Bytes),
             "len" => (format!("length {}", rp), RTy::Usize),
+            "is_empty" => (format!("Nat.eqb (length {}) 0", rp), RTy::Bool),
+            "is_some" => (format!("rs_is_some {}", rp), RTy::Bool),
+            "try_into" if rt == RTy::Bytes => (format!("rs_try_array SECRET_KEY_BYTES {}", rp), RTy::Res(Box::new(RTy::Bytes))),
+            "split_first" => (format!("rs_split_first {}", rp), RTy::Opt(Box::new(RTy::Tuple(vec![RTy::U8, RTy::Bytes])))),
             "unwrap_u8" => (format!("b2u8 {}", rp), RTy::U8),
             "identifier" => (format!("sid {}", rp), RTy::U8),
             "as_field_element" => (format!("share_as_field_element {} {}", self.o(), rp), RTy::Res(Box::new(RTy::Scalar))),
